@@ -73,6 +73,8 @@ def parseU : Nat → List String → Option (U × List String)
     | "col", n :: ty :: rest => (parseTy? ty).map (fun t => (U.col n t, rest))
     | "li", i :: rest => (parseInt? i).map (fun v => (U.li v, rest))
     | "ls", s :: rest => (parseStr? s).map (fun v => (U.ls v, rest))
+    | "pi", i :: rest => (parseInt? i).map (fun v => (U.pi v, rest))
+    | "ps", s :: rest => (parseStr? s).map (fun v => (U.ps v, rest))
     | "ln", s :: rest => (parseStr? s).map (fun v => (U.ln v, rest))
     | "lb", "1" :: rest => some (U.lb true, rest)
     | "lb", "0" :: rest => some (U.lb false, rest)
